@@ -152,6 +152,9 @@ def action_bytes(act: Dict[str, Any]) -> Tuple[List[int], List[List[int]]]:
     if a == "CallF":
         t = act["arg"]
         return [0x05, t & 0xFF, (t >> 8) & 0xFF, t >> 16], extra
+    if a == "Dispatch":
+        t = act["arg"]
+        return [0x0A, t & 0xFF, t >> 8, 0xB2, 0x37, 0x06], extra          # MV BA,t ; MV [--S],BA ; RET
     if a == "Ir":
         h = act["arg"]
         extra = [[0xFFFFA, h & 0xFF], [0xFFFFB, (h >> 8) & 0xFF], [0xFFFFC, h >> 16]]
@@ -179,7 +182,8 @@ class PyReplayer:
         for a, v in extra:
             self.sm.mem[a] = v
         try:
-            self.emu.execute_instruction(pc)
+            for _ in range(3 if code[:1] == [0x0A] and len(code) == 6 else 1):          # the dispatch idiom is three instructions
+                self.emu.execute_instruction(self.emu.regs.get(self.RN.PC))
         except Exception as ex:      # noqa: BLE001
             return {"err": f"{type(ex).__name__}: {ex}"}
         return {"pc": int(self.emu.regs.get(self.RN.PC)), "s": int(self.emu.regs.get(self.RN.S)), "f": int(self.emu.regs.get(self.RN.F)) & 3,
@@ -202,8 +206,8 @@ class RsReplayer:
 
     def step(self, code: List[int], extra: List[List[int]]) -> Dict[str, int]:
         mem = [[(self.pc + i) & 0xFFFFF, b] for i, b in enumerate(code)] + extra
-        r = self.vh.call("exec.more", mem=mem, n=1)
-        s = r["steps"][0]
+        r = self.vh.call("exec.more", mem=mem, n=3 if code[:1] == [0x0A] and len(code) == 6 else 1)
+        s = r["steps"][-1]
         if s["err"]:
             return {"err": str(s["err"])}
         self.pc = s["regs"]["PC"]
